@@ -49,6 +49,7 @@ impl RawCore {
             if !self.raw_try(m) {
                 sched::machinery_failure("lock table and raw lock state disagree on acquire");
             }
+            sched::held_point();
             return;
         }
         let mut spins = 0u64;
